@@ -13,6 +13,9 @@ MODULES_STORE = ["RotoV.Model.BoundaryStore", "RotoV.Lemmas.BoundaryStore"]
 # every read sees an assigned value: definite assignment on the blocks of the LIR
 PROPS_DEFUSE = "RotoV.Props.C05DefUse"
 MODULES_DEFUSE = ["RotoV.Model.BoundaryDefUse", "RotoV.Lemmas.BoundaryDefUse"]
+# only built-in and registered types cross: the generated name tests of check_roto_type
+PROPS_GATE = "RotoV.Props.C05Gate"
+MODULES_GATE = ["RotoV.Model.BoundaryGate", "RotoV.Lemmas.BoundaryGate"]
 
 
 def search(ctx):
@@ -32,7 +35,8 @@ def run(ctx):
         os.remove(f)
     ctx.extract(["boundary"])
     theorems, examples, axioms = [], 0, {}
-    for props, mods in ((PROPS, MODULES), (PROPS_STORE, MODULES_STORE), (PROPS_DEFUSE, MODULES_DEFUSE)):
+    for props, mods in ((PROPS, MODULES), (PROPS_STORE, MODULES_STORE), (PROPS_DEFUSE, MODULES_DEFUSE),
+                        (PROPS_GATE, MODULES_GATE)):
         ctx.prove(props, extra_modules=mods)
         theorems += ctx.coverage.get("theorems", [])
         examples += ctx.coverage.get("nonvacuity_examples", 0)
@@ -58,6 +62,10 @@ def run(ctx):
         "(Oracle.WellBehaved); heap objects with shared ownership that a host value points to (a List is a reference) are "
         "not host cells in this model; the LIR the theorem is applied to is the hook's dump of the generated scripts, not of "
         "every script",
+        "gate model (Props/C05Gate): name resolution puts the built-in generics and primitives in the global scope and "
+        "whatever a script declares in a scope of its own, and never applies a primitive or registered type to type "
+        "arguments (STy.WF; the type checker's scopes are C18's subject); the gate's arms are generated, the surrounding "
+        "recursion of check_roto_type is transcribed (C04 translates the whole function)",
     ]
     return ctx.finish(
         level="proof",
@@ -77,7 +85,14 @@ def run(ctx):
              "300/3000 random deeper types and 400/6000 random multi-parameter signatures against the Lean driver; the real LIR "
              "(hook mem_ops) of the 632 generated read-site / private-copy programs against Func.check (provenance) and "
              "Cfg.check (definite assignment) in the driver; a class "
-             "is distinct by (scenario, position, size/align class signature of the type) with every round agreeing",
+             "is distinct by (scenario, position, size/align class signature of the type) with every round agreeing; "
+             "script-declared types in exported signatures (class representatives, first): enums the script declares under "
+             "the names Option / Result / Verdict / List and under fresh names x variant order {swapped, as in Rust, a third "
+             "variant first / last} x payloads {u32, u8, u64, bool, f64, IpAddr, String, registered copy / clone type; pairs of "
+             "different size classes} x functions {construct each variant, match, payload-or-default, identity, the declared "
+             "type nested in built-in Option / List} asked for as the Rust type that spells the same names, one-field records "
+             "asked for as the field's type, payload-free enums as u8: either get_function refuses (nothing crosses) or every "
+             "value must arrive as the variant and payload that was sent",
         search=search,
     )
 
